@@ -618,48 +618,50 @@ func returnErrClasses(v ssa.Value, depth int) []errClass {
 	return []errClass{{edge: -1}}
 }
 
-// errorfWraps returns the package-level error passed as first variadic argument
-// of fmt.Errorf with a %w format.
+// errorfWraps returns the package-level error that a fmt.Errorf call formats under a %w verb (the class the
+// resulting error belongs to for errors.Is); operands are paired with their verbs, so a sentinel that is only printed
+// (%s / %v) while another error is wrapped does not count.
 func errorfWraps(call *ssa.Call) *ssa.Global {
 	args := call.Call.Args
 	if len(args) < 2 {
+		return nil
+	}
+	if o := CalleeObj(call); o == nil || o.Pkg() == nil || o.Pkg().Path() != "fmt" || o.Name() != "Errorf" {
 		return nil
 	}
 	f, ok := constString(args[0])
 	if !ok || !strings.Contains(f, "%w") {
 		return nil
 	}
-	// variadic slice: find stores into the backing array
-	sl, ok := args[1].(*ssa.Slice)
-	if !ok {
+	vals := varargValues(args[1])
+	verbs := formatVerbs(f)
+	if vals == nil {
 		return nil
 	}
-	alloc, ok := sl.X.(*ssa.Alloc)
-	if !ok {
-		return nil
-	}
-	var first ssa.Value
-	for _, ref := range *alloc.Referrers() {
-		ia, ok := ref.(*ssa.IndexAddr)
-		if !ok {
-			continue
+	asGlobal := func(v ssa.Value) *ssa.Global {
+		if v == nil {
+			return nil
 		}
-		if idx, ok := constInt(ia.Index); !ok || idx != 0 {
-			continue
-		}
-		for _, r2 := range *ia.Referrers() {
-			if st, ok := r2.(*ssa.Store); ok {
-				first = st.Val
+		v = stripValue(v)
+		if u, ok := v.(*ssa.UnOp); ok && u.Op == token.MUL {
+			if g, ok := u.X.(*ssa.Global); ok {
+				return g
 			}
 		}
-	}
-	if first == nil {
 		return nil
 	}
-	first = stripValue(first)
-	if u, ok := first.(*ssa.UnOp); ok && u.Op == token.MUL {
-		if g, ok := u.X.(*ssa.Global); ok {
-			return g
+	if verbs == nil {
+		// explicit argument indexes: fall back to the first operand
+		if len(vals) > 0 {
+			return asGlobal(vals[0])
+		}
+		return nil
+	}
+	for i, v := range vals {
+		if i < len(verbs) && verbs[i] == 'w' {
+			if g := asGlobal(v); g != nil {
+				return g
+			}
 		}
 	}
 	return nil
